@@ -23,7 +23,8 @@ REQUIRED_PROBES = ["coarsener_init", "greedy_prune"]
 REQUIRED_FEATURES = ["sched:sequential", "sched:pool", "sched:functor:reverse_eval_map", "sched:functor:eager_map",
                      "k>bins-of-every-chromosome", "chunksize:1", "algebra:chain", "algebra:merge-commute",
                      "mode:square", "mode:symm", "agg:max", "coarsen:spans>1", "family:variable", "family:trap",
-                     "counts:float-fractional", "agg:mean+dtype:float", "via:cli-coarsen:field-dtype+agg", "sums:beyond-int32",
+                     "counts:float-fractional", "agg:mean+dtype:float", "base:legacy-without-storage-mode-attr",
+                     "history:failed-parallel-coarsen-then-valid-one", "via:cli-coarsen:field-dtype+agg", "sums:beyond-int32",
                      "family:coarse_trap", "via:cli-coarsen", "family:giant_variable",
                      "family:fixed_exact:odd-width"]
 SHARD_TIMEOUT = {"quick": 1800, "thorough": 7200}
@@ -117,6 +118,11 @@ def one_base(ctx, shard, i, rng):
     base = os.path.join(d, "base.cool")
     make_cooler(base, bt, P, symm=symm, extra={"score": E} if two else None,
                 count_dtype=np.float64 if float_counts else None)
+    legacy = bool(symm and rng.random() < 0.2)
+    if legacy:
+        # file as written by old versions: no storage-mode attribute (it then means symmetric-upper)
+        with h5py.File(base, "r+") as f:
+            del f.attrs["storage-mode"]
     maxb = max(len(e) - 1 for _, e in bt)
     minb = min(len(e) - 1 for _, e in bt)
     rowlen = max([sum(1 for kk in P if kk[0] == r) for r in range(n)] or [1])
@@ -157,6 +163,8 @@ def one_base(ctx, shard, i, rng):
                     c.feature("agg:max")
                 if float_counts:
                     c.feature("counts:float-fractional")
+                if legacy:
+                    c.feature("base:legacy-without-storage-mode-attr")
                 cols = ["count", "score"] if two else None
                 if kind == "sequential" and x == 2:
                     from click.testing import CliRunner
@@ -222,6 +230,29 @@ def one_base(ctx, shard, i, rng):
                             "family": fam}, limit=5)
             if os.path.exists(out):
                 os.remove(out)
+    # ------------------------------------------------ history: a parallel coarsening that fails in the workers, then a valid one
+    cid = f"c:{shard['sub']}:{i}:after-failed-parallel"
+    if ctx.want(cid) and shard["pool_execs"] > 0 and P:
+        import cooler.parallel as PAR
+        with ctx.case(cid, dict(base_desc, history=["coarsen nproc=2 with an unknown aggregate (fails)", "coarsen nproc=2"])) as c:
+            raised = None
+            try:
+                cooler.coarsen_cooler(base, os.path.join(d, "failed.cool"), 2, chunksize=chunks[int(rng.integers(4))], nproc=2,
+                                      agg={"count": "no_such_aggregate"})
+            except Exception as e:  # noqa  (the refusal itself is not what is judged)
+                raised = type(e).__name__
+            c.feature("history:failed-parallel-coarsen-then-valid-one")
+            # logical observation instead of a deadline: is the module's write lock still held?
+            free = PAR.lock.acquire(False)
+            PAR.lock.release()       # (either our probe's hold or the leaked one: the rest of the shard must not hang)
+            c.check(free, "lock-left-held-after-failed-parallel-coarsen",
+                    f"after a parallel coarsening that failed ({raised}), cooler.parallel.lock is still held: every later "
+                    f"coarsening with nproc > 1 in this process would wait forever")
+            if free:
+                out = os.path.join(d, "after_failed.cool")
+                cooler.coarsen_cooler(base, out, 2, chunksize=chunks[int(rng.integers(4))], nproc=2)
+                check_output(c, out, "/", bt, P, None, 2, symm, None, "parallel run after a failed one")
+            probes.collect_worker_events(ctx)
     # ------------------------------------------------ requested aggregate together with a requested dtype
     cid = f"c:{shard['sub']}:{i}:mean"
     if ctx.want(cid) and P:
